@@ -760,7 +760,7 @@ def _format_path(t_path, root=None):
     if root is None:
         root = T
     if path_parts or not cur_t_path:
-        part_reprs = [_format_t(part) if type(part) is list else repr(part)
+        part_reprs = [_format_t(part) if type(part) is list else bbrepr(part)
                       for part in path_parts]
         if root is not T:
             # non-T roots (S, A) must be kept, as the first argument
